@@ -339,7 +339,40 @@ def _standin(repo, seed, tier):
 
 _standin.tiers = ('quick', 'thorough')
 BOUNDED = [_standin]
-STRUCTURAL = [structural_cleanup, structural_queue]
+def structural_listener(repo):
+    """helper side: only ordinary exceptions of a request are reported back to the caller; SystemExit,
+    KeyboardInterrupt and the like end the helper (the caller then sees the crash as InternalError)"""
+    rel = 'jedi/inference/compiled/subprocess/__init__.py'
+    try:
+        tree = ast.parse(open(os.path.join(repo, rel), encoding='utf-8').read())
+    except (OSError, SyntaxError) as e:
+        return [{'id': 'listener-catches', 'kind': 'raises', 'ok': None, 'label': 'cannot parse %s: %s' % (rel, e)}]
+    from pyvc.verify import find_function
+    fn = find_function(tree, 'Listener.listen')
+    ok, definite, detail = None, False, ''
+    if fn is not None:
+        caught = []
+        for n in ast.walk(fn):
+            if isinstance(n, ast.Try) and any('_run' in ast.unparse(b) for b in n.body):
+                for h in n.handlers:
+                    if h.type is None:
+                        caught.append('BaseException')
+                    elif isinstance(h.type, ast.Tuple):
+                        caught += [ast.unparse(e) for e in h.type.elts]
+                    else:
+                        caught.append(ast.unparse(h.type))
+        detail = repr(caught)
+        if caught:
+            bad = [c for c in caught if c in ('BaseException', 'SystemExit', 'KeyboardInterrupt', 'GeneratorExit')]
+            ok = caught == ['Exception']
+            definite = bool(bad)
+    return [{'id': 'listener-catches', 'kind': 'raises', 'ok': ok, 'definite': definite, 'detail': detail,
+             'label': 'the helper reports back only ordinary exceptions (except Exception) of a request: SystemExit / '
+                      'KeyboardInterrupt raised by a request end the helper and reach the caller as InternalError, '
+                      'never as themselves'}]
+
+
+STRUCTURAL = [structural_cleanup, structural_queue, structural_listener]
 NOT_DECIDED = ['"no query hangs" (liveness: a helper that is alive but stuck blocks pickle_load forever)',
                'file-descriptor accounting at OS level', 'true concurrency of the stderr thread / __del__ inside run()',
                'Listener side (__main__, _run): contracts pending']
